@@ -279,7 +279,7 @@ Lemma resolve_wstmt : forall t, wstmt t = true -> resolve t [] = Some (t, []).
 Proof.
   apply (wstmt_induction (fun t => resolve t [] = Some (t, []))).
   - intros t Hp. apply resolve_pure. exact Hp.
-  - intros g e Hok. unfold assign_ok in Hok. apply andb_prop in Hok. destruct Hok as [Hp _].
+  - intros g e Hok. unfold assign_ok in Hok. pose proof Hok as Hp.
     cbn [resolve]. unfold rbind. rewrite (resolve_pure e Hp). reflexivity.
   - intros l _ _ HF.
     assert (E : resolve_list_of l [] = Some (l, [])).
